@@ -46,19 +46,25 @@ CONSTANTS Jobs,       \* the case spaces explored by this run: a set of Job(...)
 \*   domain   "dag":  bases among the classes defined earlier, no duplicates (CPython can execute it as written)
 \*            "free": bases among the *other* classes, duplicates allowed (cycles, forward references)
 \*            "self": bases among all classes (a class may also name itself)
+\*            "ext":  like "dag", and any one position of a base list may hold a base Griffe cannot resolve
+\*                    (a builtin, a class of a package that is not loaded, `Generic[T]`): written Ext in bases[c]
 \*   mem      member names that may be declared in class bodies (every placement is explored)
 \*   layouts  subset of {"one", "from", "as", "attr", "chain", "chain2", "sub", "nest"} (every split point is explored)
 \*   dodel    TRUE: after the members are known, one `del cls[name]` is applied (every class x name) and the
 \*            inherited members are computed again
 Job(name, n, maxb, domain, mem, layouts) ==
-  [name |-> name, n |-> n, maxb |-> maxb, domain |-> domain, mem |-> mem, layouts |-> layouts, dodel |-> FALSE]
+  [name |-> name, n |-> n, maxb |-> maxb, domain |-> domain, mem |-> mem, layouts |-> layouts, dodel |-> FALSE, roots |-> "all"]
+\* roots = "last": only the last class is run through the machine (its sub-hierarchies on classes 1..n-1 are exactly the
+\* hierarchies of the job with one class less, where every class is run); the reference is still computed for every class
+LastRootJob(name, n, maxb, domain, mem, layouts) == [Job(name, n, maxb, domain, mem, layouts) EXCEPT !.roots = "last"]
 DelJob(name, n, maxb, domain, mem, layouts) == [Job(name, n, maxb, domain, mem, layouts) EXCEPT !.dodel = TRUE]
 One == {"one"}
 Split == {"from", "as", "attr", "chain", "chain2"}     \* two modules, the bases of one reached through imports
 Spell == {"sub", "nest"}                               \* one module: subscripted bases `Cb[int]`; classes 1..cut nested
                                                        \* in a holder class H and named `H.Cb` from outside
 QuickJobs ==
-  { Job("dag5", 5, 3, "dag", {}, One),              \* 6 560 hierarchies (every 5-class dag with <= 3 bases), orders only
+  { LastRootJob("dag5", 5, 3, "dag", {}, One),      \* 6 560 hierarchies (every 5-class dag with <= 3 bases), order of C5
+    Job("dag4x", 4, 3, "dag", {}, One),             \* ... and of C1..C4: the 160 four-class hierarchies, every class
     Job("dag4", 4, 3, "dag", {"m1"}, One),          \* 160 hierarchies x 16 placements
     Job("dag3", 3, 3, "dag", {"m1", "m2"}, One),    \* 10 x 64
     Job("free3", 3, 3, "free", {}, One),            \* 3 375 hierarchies (cycles, forward references, duplicates)
@@ -69,7 +75,9 @@ QuickJobs ==
     Job("splitfree3", 3, 2, "free", {}, Split),     \* 343 x 10
     Job("spell4", 4, 3, "dag", {}, Spell),          \* 160 x (1 + 3)
     Job("spell3", 3, 3, "dag", {"m1"}, Spell),      \* 10 x (1 + 2) x 8
-    DelJob("del3", 3, 3, "dag", {"m1"}, One) }      \* 10 x 8 x 3 deletions
+    DelJob("del3", 3, 3, "dag", {"m1"}, One),       \* 10 x 8 x 3 deletions
+    Job("ext3", 3, 3, "ext", {"m1"}, One),          \* 160 hierarchies with unresolvable bases x 8
+    Job("ext4", 4, 2, "ext", {}, One) }             \* 1 700 (<= 2 bases), orders only
 \* thorough: one TLC run per job (the driver replays a job while TLC explores the next one)
 T_dag5 == { Job("dag5", 5, 3, "dag", {"m1"}, One) }                  \* 6 560 hierarchies x 32 placements
 T_dag4 == { Job("dag4", 4, 3, "dag", {"m1", "m2"}, One) }            \* 160 x 256
@@ -80,10 +88,12 @@ T_split4 == { Job("split4", 4, 3, "dag", {"m1"}, Split) }            \* 2 400 x 
 T_splitfree3 == { Job("splitfree3", 3, 2, "free", {"m1"}, Split) }   \* 3 430 x 8
 T_spell4 == { Job("spell4", 4, 3, "dag", {"m1"}, Spell) }            \* 160 x 4 x 16
 T_del4 == { DelJob("del4", 4, 3, "dag", {"m1"}, One) }               \* 160 x 16 x 4 deletions
-ThoroughJobs == T_dag5 \cup T_dag4 \cup T_free3 \cup T_free4 \cup T_self3 \cup T_split4 \cup T_splitfree3 \cup T_spell4 \cup T_del4
+T_ext4 == { Job("ext4", 4, 3, "ext", {"m1"}, One) }                   \* 6 560 x 16
+ThoroughJobs == T_ext4 \cup T_dag5 \cup T_dag4 \cup T_free3 \cup T_free4 \cup T_self3 \cup T_split4 \cup T_splitfree3 \cup T_spell4 \cup T_del4
 SimJobs == { Job("sim6", 6, 3, "dag", {"m1"}, One) }   \* 564 160 hierarchies: sampled with -simulate
 TinyJobs == { Job("dag3", 3, 3, "dag", {"m1"}, One), Job("free2", 2, 2, "free", {"m1"}, Split),
-              Job("spell3", 3, 3, "dag", {"m1"}, Spell), DelJob("del2", 2, 3, "dag", {"m1"}, One) }
+              Job("spell3", 3, 3, "dag", {"m1"}, Spell), DelJob("del2", 2, 3, "dag", {"m1"}, One),
+              Job("ext3", 3, 3, "ext", {"m1"}, One) }
 
 VARIABLE job          \* the job this behaviour belongs to (chosen by Init, never changes)
 N == job.n
@@ -94,6 +104,10 @@ Layouts == job.layouts
 
 Classes == 1..N
 NoClass == 0
+FirstRoot == IF job.roots = "last" THEN N ELSE 1
+Roots == FirstRoot..N     \* the classes whose mro() / inherited_members are run through the machine
+Ext == 9                  \* marker of an unresolvable base in bases[c] (not a class number: N <= 6)
+ExtOf(c) == 10 + c        \* the external class named there: one distinct, otherwise unrelated class per class statement
 
 Range(s) == {s[i] : i \in 1..Len(s)}
 Injective(s) == \A i, j \in 1..Len(s) : i # j => s[i] # s[j]
@@ -115,9 +129,12 @@ vars == <<casevars, pc, steps, fired, mrovars, refvars, memvars>>
 
 \* ---- case space ------------------------------------------------------------------------------------
 Pool(c) == CASE Domain = "dag" -> 1..(c - 1)
+             [] Domain = "ext" -> 1..(c - 1) \cup {Ext}
              [] Domain = "free" -> Classes \ {c}
              [] OTHER -> Classes
-BaseLists(c) == UNION {{s \in [1..k -> Pool(c)] : Domain # "dag" \/ Injective(s)} : k \in 0..MaxBases}
+BaseLists(c) == UNION {{s \in [1..k -> Pool(c)] : Domain \notin {"dag", "ext"} \/ Injective(s)} : k \in 0..MaxBases}
+\* the bases that are classes of the analysed modules
+LocalBases(c) == SelectSeq(bases[c], LAMBDA b : b # Ext)
 RECURSIVE Hier(_)
 Hier(k) == IF k = 0 THEN {<<>>} ELSE {Append(h, b) : h \in Hier(k - 1), b \in BaseLists(k)}
 
@@ -143,8 +160,14 @@ Member(p) == CASE p[1] = "md" -> [kind |-> "alias", at |-> <<"mc", p[2]>>]
 \* `if resolved_base.is_alias: resolved_base = resolved_base.final_target`  (follows every hop)
 RECURSIVE FinalTarget(_)
 FinalTarget(o) == IF o.kind = "alias" THEN FinalTarget(Member(o.at)) ELSE o
-\* Class.resolved_bases followed by the `is_class` filter of _mro (every base is a class here)
-ResolvedBases(c) == [i \in 1..Len(bases[c]) |-> FinalTarget(Member(BasePath(c, bases[c][i]))).at[2]]
+\* Class.resolved_bases followed by the `is_class` filter of _mro (every resolved base is a class here):
+\*     for base in self.bases:
+\*         try: resolved_base = self.modules_collection.get_member(base_path) ...
+\*         except (AliasResolutionError, CyclicAliasError, KeyError): logger.debug(...)    - this base only is skipped
+\*         else: resolved_bases.append(resolved_base)
+ResolveOne(c, b) == IF b = Ext THEN NoClass     \* get_member raises KeyError: nothing is loaded at that path
+                    ELSE FinalTarget(Member(BasePath(c, b))).at[2]
+ResolvedBases(c) == SelectSeq([i \in 1..Len(bases[c]) |-> ResolveOne(c, bases[c][i])], LAMBDA x : x # NoClass)
 \* names under which class b is visible as an import alias in the *other* module (Alias views of a class)
 AliasViews(b) ==
   IF layout \in {"one", "attr", "sub", "nest"} THEN {}
@@ -166,10 +189,12 @@ PyMerge(ls) ==
                     rest == PyMerge([q \in 1..Len(ne) |-> IF ne[q][1] = h THEN Tail(ne[q]) ELSE ne[q]])
                 IN  IF rest.ok THEN Accepted(<<h>> \o rest.order) ELSE Rejected
 
+\* what CPython sees: the external bases are real classes (here: unrelated to everything else, no bases of their own)
+PyBases(x) == IF x > N THEN <<>> ELSE [i \in 1..Len(bases[x]) |-> IF bases[x][i] = Ext THEN ExtOf(x) ELSE bases[x][i]]
 RECURSIVE PyLin(_, _)
 PyLin(c, under) ==      \* under = classes whose class statement is still being evaluated: a cycle cannot exist
   IF c \in under THEN Rejected
-  ELSE LET bs == bases[c]
+  ELSE LET bs == PyBases(c)
            ps == [i \in 1..Len(bs) |-> PyLin(bs[i], under \cup {c})]
        IN  IF \E i \in 1..Len(bs) : ~ps[i].ok THEN Rejected
            ELSE LET m == PyMerge([i \in 1..Len(bs) |-> ps[i].order] \o <<bs>>)
@@ -177,8 +202,8 @@ PyLin(c, under) ==      \* under = classes whose class statement is still being 
 
 \* declarative reading --------------------------------------------------------------------------------
 RECURSIVE Reach(_, _)
-Reach(S, n) == IF n = 0 THEN S ELSE Reach(S \cup UNION {Range(bases[x]) : x \in S}, n - 1)
-Anc(c) == Reach(Range(bases[c]), N)                          \* proper ancestors
+Reach(S, n) == IF n = 0 THEN S ELSE Reach(S \cup UNION {Range(LocalBases(x)) : x \in S}, n - 1)
+Anc(c) == Reach(Range(LocalBases(c)), N)                     \* proper ancestors among the analysed classes
 Cyclic(c) == \E x \in Anc(c) \cup {c} : x \in Anc(x)         \* a cycle can be reached from c
 Pos(s, x) == CHOOSE i \in 1..Len(s) : s[i] = x
 Keeps(a, s) == \A i, j \in 1..Len(a) : i < j => Pos(s, a[i]) < Pos(s, a[j])   \* a is a subsequence of s
@@ -186,10 +211,10 @@ Orderings(S) == {s \in [1..Cardinality(S) -> S] : Injective(s)}
 \* needs refmro (the parents' linearisations)
 ExistsExt(c) ==
   /\ ~Cyclic(c)
-  /\ \A b \in Range(bases[c]) : refmro[b].ok
+  /\ \A b \in Range(LocalBases(c)) : refmro[b].ok
   /\ \E s \in Orderings(Anc(c)) :
-        /\ Keeps(bases[c], s)                                          \* local precedence order
-        /\ \A b \in Range(bases[c]) : Keeps(refmro[b].order, s)        \* monotonicity
+        /\ Keeps(LocalBases(c), s)                                     \* local precedence order
+        /\ \A b \in Range(LocalBases(c)) : Keeps(refmro[b].order, s)   \* monotonicity
 
 FirstDeclaring(order, m) ==     \* type.__getattribute__: walk the MRO, first __dict__ that has the name
   LET idx == {i \in 1..Len(order) : m \in has[order[i]]} IN IF idx = {} THEN NoClass ELSE order[Min(idx)]
@@ -209,7 +234,7 @@ Init ==
   /\ cut \in (IF layout \in {"one", "sub"} THEN {0} ELSE 1..(N - 1))
   /\ has = [c \in Classes |-> {}]
   /\ pc = "ref" /\ steps = 0 /\ fired = {}
-  /\ root = 1 /\ stack = <<>> /\ exc = "none" /\ mro = [c \in Classes |-> Pending]
+  /\ root = FirstRoot /\ stack = <<>> /\ exc = "none" /\ mro = [c \in Classes |-> Pending]
   /\ refmro = [c \in Classes |-> Rejected] /\ refext = [c \in Classes |-> FALSE] /\ refcyc = [c \in Classes |-> FALSE]
   /\ ic = 1 /\ folding = FALSE /\ rev = <<>>
   /\ inh = [c \in Classes |-> [m \in Mem |-> NoAlias]]
@@ -222,7 +247,8 @@ Tick(a) == steps' = steps + 1 /\ fired' = fired \cup {a}
 \* the reference is evaluated first and stored
 Reference ==
   /\ pc = "ref" /\ pc' = "ext" /\ Tick("Reference")
-  /\ refmro' = [c \in Classes |-> PyLin(c, {})]
+  /\ refmro' = [c \in Classes |-> LET l == PyLin(c, {}) IN      \* CPython's MRO, restricted to the analysed classes
+                                     [ok |-> l.ok, order |-> SelectSeq(l.order, LAMBDA x : x <= N)]]
   /\ refcyc' = [c \in Classes |-> Cyclic(c)]
   /\ UNCHANGED <<casevars, mrovars, refext, memvars>>
 Extension ==
@@ -388,19 +414,19 @@ Placed == pc = "place"          \* every mro() has returned or raised; evaluated
 Full(c) == <<c>> \o mro[c].order
 
 \* the order Griffe computes equals CPython's; what CPython refuses (or cannot build: cycles) is uncomputable
-SameMRO == Placed => \A c \in Classes :
+SameMRO == Placed => \A c \in Roots :
               /\ mro[c].ok = refmro[c].ok
               /\ mro[c].ok => Full(c) = refmro[c].order
-UncomputableIffRejected == Placed => \A c \in Classes : (~mro[c].ok) <=> (refcyc[c] \/ ~refext[c])
-CycleReportedOnlyForCycles == Placed => \A c \in Classes : (mro[c].why = "cycle" => refcyc[c]) /\ (refcyc[c] => ~mro[c].ok)
+UncomputableIffRejected == Placed => \A c \in Roots : (~mro[c].ok) <=> (refcyc[c] \/ ~refext[c])
+CycleReportedOnlyForCycles == Placed => \A c \in Roots : (mro[c].why = "cycle" => refcyc[c]) /\ (refcyc[c] => ~mro[c].ok)
 \* the two formulations of the reference agree (functional merge rule  <=>  a consistent ordering exists)
 ReferenceCoherent == Placed => \A c \in Classes : refmro[c].ok <=> refext[c]
 \* structure of a computed order
-EachAncestorOnce == Placed => \A c \in Classes : mro[c].ok =>
+EachAncestorOnce == Placed => \A c \in Roots : mro[c].ok =>
                        /\ Injective(Full(c)) /\ Range(mro[c].order) = Anc(c) /\ c \notin Anc(c)
-LocalPrecedence == Placed => \A c \in Classes : mro[c].ok => Keeps(bases[c], Full(c))
-Monotonic == Placed => \A c \in Classes : mro[c].ok =>
-                \A b \in Range(bases[c]) : mro[b].ok /\ Keeps(Full(b), Full(c))
+LocalPrecedence == Placed => \A c \in Roots : mro[c].ok => Keeps(LocalBases(c), Full(c))
+Monotonic == Placed => \A c \in Roots : mro[c].ok =>
+                \A b \in Range(LocalBases(c)) : refmro[b].ok /\ Keeps(refmro[b].order, Full(c))
 \* recursion and merge are bounded
 StackBounded == /\ Len(stack) <= N
                 /\ \A d \in 1..Len(stack) : Injective(stack[d].seen) /\ Len(stack[d].seen) <= N
@@ -410,11 +436,11 @@ MergeProgress ==     \* every round of the merge loop removes an element
         => TotalLen(stack'[Len(stack')].lists) < TotalLen(Top.lists)]_vars
 
 \* inherited members are what CPython's attribute look-up finds through that order
-InheritedIsGetattr == Done => \A c \in Classes : refmro[c].ok => \A m \in Mem :
+InheritedIsGetattr == Done => \A c \in Roots : refmro[c].ok => \A m \in Mem :
                          inh[c][m].owner = (IF m \in has[c] THEN NoClass ELSE FirstDeclaring(Tail(refmro[c].order), m))
-AllMembersIsGetattr == Done => \A c \in Classes : refmro[c].ok => \A m \in Mem : allm[c][m] = refattr[c][m]
-NeverShadowsDeclared == Done => \A c \in Classes : \A m \in Mem : inh[c][m].owner # NoClass => m \notin has[c]
-InheritedAliasShape == Done => \A c \in Classes : \A m \in Mem : inh[c][m].owner # NoClass =>
+AllMembersIsGetattr == Done => \A c \in Roots : refmro[c].ok => \A m \in Mem : allm[c][m] = refattr[c][m]
+NeverShadowsDeclared == Done => \A c \in Roots : \A m \in Mem : inh[c][m].owner # NoClass => m \notin has[c]
+InheritedAliasShape == Done => \A c \in Roots : \A m \in Mem : inh[c][m].owner # NoClass =>
                           /\ inh[c][m].parent = c /\ inh[c][m].inherited       \* path = path(c).m
                           /\ inh[c][m].owner \in Range(mro[c].order) /\ m \in has[inh[c][m].owner]
 \* CPython's `del C.m` removes m only from C's own namespace (AttributeError otherwise): whatever del cls[m] did,
@@ -423,7 +449,7 @@ InheritedAliasShape == Done => \A c \in Classes : \A m \in Mem : inh[c][m].owner
 \* uncovers the next one of the MRO.
 DelTouchesOnlyOwnMember == (Done /\ delop # NoDel) => (delop.out = "deleted") = delop.had
 DelFinished == job.dodel \/ delop = NoDel
-NothingWhenUncomputable == Done => \A c \in Classes : ~mro[c].ok => \A m \in Mem : inh[c][m] = NoAlias
+NothingWhenUncomputable == Done => \A c \in Roots : ~mro[c].ok => \A m \in Mem : inh[c][m] = NoAlias
 
 AllActions == {"Reference", "Extension", "CallMro", "MroEnter", "MroCycleCheck", "MroRecurse", "MergeStart", "MergeExhausted",
                "MergePick", "MergeFail", "Unwind", "MroFailed", "MroAllDone", "PlaceMembers", "InheritedStart", "InheritedFold",
